@@ -354,9 +354,9 @@ def sigL (ks : List FNode) : List Tok := sigToks (leavesL ks)
 theorem sigToks_append (a b : List Tok) : sigToks (a ++ b) = sigToks a ++ sigToks b := by
   simp [sigToks]
 
-theorem leavesL_append : ∀ (a b : List FNode), leavesL (a ++ b) = leavesL a ++ leavesL b
+theorem fleavesL_append : ∀ (a b : List FNode), leavesL (a ++ b) = leavesL a ++ leavesL b
   | [], b => rfl
-  | k :: a, b => by simp [leavesL, leavesL_append a b]
+  | k :: a, b => by simp [leavesL, fleavesL_append a b]
 
 theorem sigL_nil : sigL [] = [] := rfl
 
@@ -364,7 +364,7 @@ theorem sigL_cons (k : FNode) (ks : List FNode) : sigL (k :: ks) = sigToks k.lea
   simp [sigL, leavesL, sigToks_append]
 
 theorem sigL_append (a b : List FNode) : sigL (a ++ b) = sigL a ++ sigL b := by
-  simp [sigL, leavesL_append, sigToks_append]
+  simp [sigL, fleavesL_append, sigToks_append]
 
 theorem sig_ws (k : FNode) (h : k.isWhitespace = true) : sigToks k.leaves = [] := by
   cases k with
@@ -630,7 +630,7 @@ theorem ncToks_append (a b : List Tok) : ncToks (a ++ b) = ncToks a ++ ncToks b 
 theorem ncL_cons (k : FNode) (ks : List FNode) : ncL (k :: ks) = ncToks k.leaves ++ ncL ks := by
   simp [ncL, leavesL, ncToks_append]
 theorem ncL_append (a b : List FNode) : ncL (a ++ b) = ncL a ++ ncL b := by
-  simp [ncL, leavesL_append, ncToks_append]
+  simp [ncL, fleavesL_append, ncToks_append]
 theorem ncL_singleton (k : FNode) : ncL [k] = ncToks k.leaves := by simp [ncL, leavesL]
 
 mutual
